@@ -1820,6 +1820,21 @@ def _mk_arr_op(name, op, rname=None):
         setattr(SymArray, rname, rev)
 
 
+def _mk_inplace(name, op):
+    """`a op= b` on an ndarray writes into a's buffer (every alias of the array sees it) and fails when the result does not
+    fit a's shape; a symbolic array must do the same, not silently rebind the name to a new object"""
+    def f(s, o):
+        if isinstance(o, str) or o is None:
+            return NotImplemented
+        r = _obj(ew(op, s, o))
+        if np.broadcast_shapes(r.shape, s.a.shape) != s.a.shape:
+            raise ValueError(f"non-broadcastable output operand with shape {s.a.shape} doesn't match the broadcast shape {r.shape}")
+        s.a[...] = np.broadcast_to(r, s.a.shape)
+        return s
+
+    setattr(SymArray, name, f)
+
+
 def _both_bool(a, b):
     return isinstance(a, (SymBool, bool, np.bool_)) and isinstance(b, (SymBool, bool, np.bool_))
 
@@ -1836,6 +1851,10 @@ _mk_arr_op("__gt__", lambda a, b: _lt(tf(b), tf(a)))
 _mk_arr_op("__ge__", lambda a, b: _le(tf(b), tf(a)))
 _mk_arr_op("__eq__", lambda a, b: (tb_(a) == tb_(b)) if _both_bool(a, b) else _eq(tf(a), tf(b)))
 _mk_arr_op("__ne__", lambda a, b: (tb_(a) != tb_(b)) if _both_bool(a, b) else ~_eq(tf(a), tf(b)))
+_mk_inplace("__iadd__", lambda a, b: (tb_(a) + tb_(b)) if _both_bool(a, b) else _add(tf(a), tf(b)))
+_mk_inplace("__isub__", lambda a, b: _sub(tf(a), tf(b)))
+_mk_inplace("__imul__", lambda a, b: (tb_(a) * tb_(b)) if _both_bool(a, b) else _mul(tf(a), tf(b)))
+_mk_inplace("__itruediv__", lambda a, b: _div(tf(a), tf(b)))
 _mk_arr_op("__and__", lambda a, b: tb_(a) & tb_(b), "__rand__")
 _mk_arr_op("__or__", lambda a, b: tb_(a) | tb_(b), "__ror__")
 
